@@ -180,13 +180,19 @@ def sym_roundtrip(P, ex):
         exp_ep = ep if ep and ep != 'default' else None
         got_ep = back.value.split('%')[1] if '%' in back.value else None
         ex.check(got_ep == exp_ep, f'entrypoint {exp_ep} read back as {got_ep}')
-        if P.get('blind') and tname == 'address' and not exp_ep:
-            from pytezos.michelson.micheline import blind_unpack
+        if P.get('blind') and not exp_ep:
+            import pytezos.michelson.micheline as MM
 
             b.recorded.clear()
             raw = bvx._Bytes.fromhex(opt['bytes'])
-            res = blind_unpack(raw)
-            ex.check(isinstance(res, str) and _kind_of(res) == kind, 'blind_unpack of the 22-byte form returns an address of the same kind')
+            bvx.HASH_SHORT_BYTES[0] = True      # unforge_public_key looks the tag byte up in a dict
+            try:
+                with bvx.shadowed(MM):
+                    res = MM.blind_unpack(raw)
+            finally:
+                bvx.HASH_SHORT_BYTES[0] = False
+            ok_kinds = (kind, 'sig') if (tname == 'signature' and kind in ('edsig', 'spsig', 'p2sig')) else (kind,)
+            ex.check(isinstance(res, str) and _kind_of(res) in ok_kinds, f'blind_unpack of the optimized form returns a {tname} of the same kind')
             ex.check(b.recorded and b.recorded[-1][2] == payload, 'blind_unpack keeps the payload')
 
 
@@ -210,12 +216,15 @@ def conc_roundtrip(P, w):
     if tname == 'signature' and kind in ('edsig', 'spsig', 'p2sig') and not ok:
         ok = base58.b58decode_check(back.value)[-64:] == payload and back.value.startswith('sig')
     res = {'ok': ok, 'value': text, 'optimized': opt, 'observed': back.value, 'expected': exp}
-    if ok and P.get('blind') and tname == 'address' and '%' not in exp:
+    if ok and P.get('blind') and '%' not in exp:
         from pytezos.michelson.micheline import blind_unpack
 
-        r = blind_unpack(bytes.fromhex(opt['bytes']))
+        try:
+            r = blind_unpack(bytes.fromhex(opt['bytes']))
+        except Exception as e:  # noqa
+            r = f'{type(e).__name__}: {e}'
         res['blind_unpack'] = repr(r)
-        res['ok'] = r == exp
+        res['ok'] = r == exp or (tname == 'signature' and isinstance(r, str) and r.startswith('sig') and base58.b58decode_check(r)[-64:] == payload)
     return res
 
 
@@ -276,12 +285,12 @@ def obligations(tier):
                 add(f'address/{kind}/{ep or "-"}/{mode}', {'type': 'address', 'kind': kind, 'entrypoint': ep, 'mode': mode, 'blind': mode == 'optimized'},
                     f'all 20-byte payloads of {kind}; entrypoint {ep!r}')
         for kind in KEYHASH_KINDS:
-            add(f'key_hash/{kind}/{mode}', {'type': 'key_hash', 'kind': kind, 'mode': mode}, f'all 20-byte payloads of {kind}')
+            add(f'key_hash/{kind}/{mode}', {'type': 'key_hash', 'kind': kind, 'mode': mode, 'blind': mode == 'optimized'}, f'all 20-byte payloads of {kind}')
         for kind in KEY_KINDS:
-            add(f'key/{kind}/{mode}', {'type': 'key', 'kind': kind, 'mode': mode}, f'all payloads of {kind}')
+            add(f'key/{kind}/{mode}', {'type': 'key', 'kind': kind, 'mode': mode, 'blind': mode == 'optimized'}, f'all payloads of {kind}')
         for kind in SIG_KINDS:
-            add(f'signature/{kind}/{mode}', {'type': 'signature', 'kind': kind, 'mode': mode}, f'all payloads of {kind}')
-        add(f'chain_id/Net/{mode}', {'type': 'chain_id', 'kind': 'Net', 'mode': mode}, 'all 4-byte chain ids')
+            add(f'signature/{kind}/{mode}', {'type': 'signature', 'kind': kind, 'mode': mode, 'blind': mode == 'optimized'}, f'all payloads of {kind}')
+        add(f'chain_id/Net/{mode}', {'type': 'chain_id', 'kind': 'Net', 'mode': mode, 'blind': mode == 'optimized'}, 'all 4-byte chain ids')
     for tname, kinds in (('address', ['tz1', 'tz2']), ('address', ['tz2', 'KT1', 'sr1']), ('address', ['KT1', 'tz1', 'tz3']),
                          ('key_hash', ['tz1', 'tz4', 'tz2']), ('key_hash', ['tz3', 'tz1'])):
         obs.append(Ob(f'sequence/{tname}/' + '+'.join(kinds), 'bvx', sym_sequence, conc_sequence, {'type': tname, 'kinds': kinds}, timeout=t,
